@@ -61,6 +61,8 @@ def metric_of(ev):
                             labels[kk] = vv
                         if v[2] is not None:
                             labels["**"] = v[2]
+                    elif k is None:
+                        labels["**"] = v  # **<mapping that is not known here>
                     else:
                         labels[k] = v
                 return (m[2], f[2], labels)
